@@ -75,7 +75,7 @@ func genC17(t *rapid.T) Case {
 	c.Foreign = rapid.IntRange(0, 2).Draw(t, "foreign") == 0
 	n := rapid.IntRange(2, 14).Draw(t, "nops")
 	for i := 0; i < n; i++ {
-		k := rapid.SampledFrom([]string{"burst", "burst", "burst", "delburst", "delburst", "gc", "reopen", "set", "del", "droproot"}).Draw(t, "kind")
+		k := rapid.SampledFrom([]string{"burst", "burst", "burst", "delburst", "delburst", "gc", "reopen", "set", "del", "droproot", "foreignin"}).Draw(t, "kind")
 		op := Op{K: k}
 		switch k {
 		case "burst":
@@ -88,6 +88,8 @@ func genC17(t *rapid.T) Case {
 		case "set", "del":
 			op.Key = rapid.IntRange(0, 3).Draw(t, "key")
 			op.Len = rapid.IntRange(0, 10).Draw(t, "len")
+		case "foreignin":
+			op.Key = rapid.IntRange(0, 7).Draw(t, "whichDir")
 		}
 		c.Ops = append(c.Ops, op)
 	}
